@@ -275,6 +275,16 @@ def main(pid, tier, seed):
             failing = list(v[1]) if isinstance(v[1], (tuple, list)) else [v[1]]
             verdict.violation(dict(m, clause='+'.join(failing), failing=failing, check=m.get('file', m.get('check', ''))),
                               'clauses %s; %s' % (failing, core.short({k: m[k] for k in m if k != 'passwords'}, 300)))
+    def corrupt(t):
+        if t['kind'] == 'list' and len(t['recs']) >= 2:
+            t['recs'][0]['c'] += 1                   # a written probability that is not count / total
+            return t
+        if t['kind'] == 'lang' and t['supported']:
+            t['guesses'] = [g for g in t['guesses'] if g != t['supported'][0]]     # a training password the guesser never emits
+            return t
+        return None
+    accepted = [t for t in traces if verdicts[t['tid']][0] == 'ACCEPT']
+    selftest = core.binding_selftest('TrTrain.tla', accepted, corrupt)
     rc, n_viol, n_known = verdict.finish()
     distinct = len({json.dumps({k: v for k, v in t.items() if k != 'tid'}, sort_keys=True) for t in traces
                     if t['kind'] != 'list' or len(t['recs']) > 1})
@@ -286,7 +296,7 @@ def main(pid, tier, seed):
            'rule': 'C06: one trace = one saved list of one real training against the tallies captured from the trainer memory, the structure '
                    'list coverage clauses, or two trainings of the same input; C03: one trace = one real training + the real guesser run to '
                    'exhaustion with --skip_brute; non-trivial = list with more than one record',
-           'trainings': n_train, 'trace_validation': st, 'exhaustive': False,
+           'trainings': n_train, 'trace_validation': st, 'exhaustive': False, 'binding_selftest': selftest,
            'known_findings_reproduced': n_known, 'violation_histogram': verdict.histogram()}
     core.write_evidence(pid, tier, seed, 'model_checking' if pid == 'C06' else 'exploration', cov, time.time() - t0, violations=n_viol,
                         assumptions=['TLC', 'written probability converted to an integer count c = round(p*total) and p == c/total checked in binary64 '
